@@ -177,7 +177,7 @@ def judge_metric_init(j, points, init, random_state, return_inverse,
             rank_in_noise_regime(A):
       j.skip(mon, 'spectrum-near-tolerance')
       return
-    singular = np.abs(w).min() < tol
+    singular = np.abs(w).min() <= tol
     if strict_pd and singular:
       j.check(mon + '.strict-pd', isinstance(exc, np.linalg.LinAlgError),
               {'min_abs_eig': np.abs(w).min(), 'got':
@@ -222,7 +222,7 @@ def judge_metric_init(j, points, init, random_state, return_inverse,
       j.skip(mon, 'covariance-ambiguous-rank')
       return
     tol = np.abs(w).max() * d * EPS
-    singular = np.abs(w).min() < tol
+    singular = np.abs(w).min() <= tol
     if strict_pd and singular:
       j.check(mon + '.strict-pd', isinstance(exc, np.linalg.LinAlgError),
               {'min_eig': w.min(), 'got': type(exc).__name__ if exc
@@ -406,8 +406,10 @@ def judge_check_sdp(j, w, tol, result, exc, mon='C20.sdp'):
   elif exc is not None:
     j.violated(mon + '.accepts', det)
   else:
+    # definite = every eigenvalue is positive beyond the tolerance (a zero
+    # eigenvalue is never "positive", also when the tolerance is 0)
     j.check(mon + '.definite-flag', bool(result) == bool(not np.any(
-        np.abs(w) < t)), det)
+        np.abs(w) <= t)), det)
 
 
 def judge_pinv_from_eig(j, w, V, tol, result, exc, mon='C20.pinv'):
